@@ -46,7 +46,7 @@ fn probe(on_clone: Option<Box<dyn FnMut()>>) -> (Arc<Probe>, Waker) {
 }
 fn live(p: &Probe) -> isize { 1 + p.clones.load(Ordering::SeqCst) as isize - p.drops.load(Ordering::SeqCst) as isize }
 
-struct Row { ok: bool, check: &'static str, detail: String }
+struct Row { ok: bool, check: &'static str, detail: String, model: Option<(Vec<String>, String)> }
 
 fn poll_once<F: Future + Unpin>(f: &mut F, w: &Waker) -> Poll<F::Output> { Pin::new(f).poll(&mut Context::from_waker(w)) }
 
@@ -62,7 +62,8 @@ pub fn main() {
             let (_pr, w) = probe(Some(Box::new(move || unsafe { let _ = (*pp).push(77); })));
             let r = { let mut fut = ac.pop(); poll_once(&mut fut, &w) };
             let ok = matches!(r, Poll::Ready(Some(77)));
-            rows.push(Row { ok, check: "recheck", detail: format!("len {len}: consumer polls `pop` on an empty buffer; the producer pushes 77 while the waker is being registered; the poll returned {} (must be Ready(Some(77)): nobody will wake the task for that push)", match r { Poll::Ready(x) => format!("Ready({x:?})"), Poll::Pending => "Pending".into() }) });
+            rows.push(Row { ok, check: "recheck", detail: format!("len {len}: consumer polls `pop` on an empty buffer; the producer pushes 77 while the waker is being registered; the poll returned {} (must be Ready(Some(77)): nobody will wake the task for that push)", match r { Poll::Ready(x) => format!("Ready({x:?})"), Poll::Pending => "Pending".into() }),
+                model: Some((vec![format!("init {len} 0 1 0{}", " 0".repeat(len)), "pollwith pop :: push 77".into()], match r { Poll::Ready(Some(v)) => format!("ready item {v}"), Poll::Ready(None) => "ready none".into(), Poll::Pending => "pending".into() })) });
             drop(w); drop(ac); unsafe { drop(Box::from_raw(pp)); }
         }
         // (a2) producer awaits room; the consumer pops during registration
@@ -75,7 +76,8 @@ pub fn main() {
             let (_pr, w) = probe(Some(Box::new(move || unsafe { let _ = (*cp).pop(); })));
             let r = { let mut fut = ap.push(99); poll_once(&mut fut, &w) };
             let ok = matches!(r, Poll::Ready(Some(())));
-            rows.push(Row { ok, check: "recheck", detail: format!("len {len}: producer polls `push` on a full buffer; the consumer pops one item while the waker is being registered; the poll returned {} (must be Ready)", match r { Poll::Ready(x) => format!("Ready({x:?})"), Poll::Pending => "Pending".into() }) });
+            rows.push(Row { ok, check: "recheck", detail: format!("len {len}: producer polls `push` on a full buffer; the consumer pops one item while the waker is being registered; the poll returned {} (must be Ready)", match r { Poll::Ready(x) => format!("Ready({x:?})"), Poll::Pending => "Pending".into() }),
+                model: Some(({ let mut l = vec![format!("init {len} 0 1 0{}", " 0".repeat(len))]; for k in 0..len - 1 { l.push(format!("push {}", 10 + k)); } l.push("pollwith push 99 :: pop".into()); l }, match r { Poll::Ready(Some(())) => "ready ok".into(), Poll::Ready(None) => "ready none".into(), Poll::Pending => "pending".into() })) });
             drop(w); drop(ap); unsafe { drop(Box::from_raw(cp)); }
         }
         // (a3) worker awaits an item; the producer pushes during registration
@@ -87,7 +89,8 @@ pub fn main() {
             let (_pr, w) = probe(Some(Box::new(move || unsafe { let _ = (*pp).push(5); })));
             let r = { let mut fut = aw.get_workable(); match poll_once(&mut fut, &w) { Poll::Ready(x) => Poll::Ready(x.map(|v| *v)), Poll::Pending => Poll::Pending } };
             let ok = matches!(r, Poll::Ready(Some(5)));
-            rows.push(Row { ok, check: "recheck", detail: format!("len {len}: worker polls `get_workable` with nothing to work on; the producer pushes 5 while the waker is being registered; the poll returned {} (must be Ready(Some(5)))", match r { Poll::Ready(x) => format!("Ready({x:?})"), Poll::Pending => "Pending".into() }) });
+            rows.push(Row { ok, check: "recheck", detail: format!("len {len}: worker polls `get_workable` with nothing to work on; the producer pushes 5 while the waker is being registered; the poll returned {} (must be Ready(Some(5)))", match r { Poll::Ready(x) => format!("Ready({x:?})"), Poll::Pending => "Pending".into() }),
+                model: Some((vec![format!("init {len} 1 1 0{}", " 0".repeat(len)), "pollwith gw W :: push 5".into()], match r { Poll::Ready(Some(v)) => format!("ready item {v}"), Poll::Ready(None) => "ready none".into(), Poll::Pending => "pending".into() })) });
             drop(w); drop(aw); drop(c); unsafe { drop(Box::from_raw(pp)); }
         }
         // (b) two tasks poll the same iterator one after the other: the iterator keeps the second task's waker and releases the first
@@ -103,10 +106,24 @@ pub fn main() {
             let (la, lb) = (live(&pa), live(&pb));
             // each probe: the creating handle was dropped above, so `live` counts what the iterator still holds (plus nothing else)
             let ok = r1.is_pending() && r2.is_pending() && la == 0 && lb >= 1;
-            rows.push(Row { ok, check: "latest_waker", detail: format!("len {len}: task A then task B poll `pop` on an empty buffer (both Pending: {} {}); wakers still held afterwards: A {la}, B {lb} (must be 0 and at least 1: the task to wake is the one that polled last)", r1.is_pending(), r2.is_pending()) });
+            rows.push(Row { ok, check: "latest_waker", detail: format!("len {len}: task A then task B poll `pop` on an empty buffer (both Pending: {} {}); wakers still held afterwards: A {la}, B {lb} (must be 0 and at least 1: the task to wake is the one that polled last)", r1.is_pending(), r2.is_pending()), model: None });
             drop(ac); drop(p);
         }
     }
+    // the same scenarios on the Lean model (`pollWith`: the other stage acts between the two attempts of one poll)
+    let a: Vec<String> = std::env::args().collect();
+    let mut drv = a.iter().position(|x| x == "--driver").map(|i| mrb_harness::driver::Driver::spawn(&a[i + 1]).expect("cannot start the Lean driver"));
+    let mut extra: Vec<Row> = vec![];
+    if let Some(d) = drv.as_mut() {
+        for r in &rows {
+            if let Some((lines, mine)) = &r.model {
+                let mut last = String::new();
+                for l in lines { last = d.ask(l); }
+                if &last != mine { extra.push(Row { ok: false, check: "model", detail: format!("implementation `{mine}`, Lean model `{last}` for: {}", lines.join(" ; ")), model: None }); }
+            }
+        }
+    }
+    rows.extend(extra);
     let js: Vec<String> = rows.iter().map(|r| obj(&[("check", esc(r.check)), ("ok", r.ok.to_string()), ("detail", esc(&r.detail))])).collect();
     println!("{}", arr(&js));
 }
